@@ -66,6 +66,21 @@ def touch_lazily(top, spec, r):
         if names:
           f = getattr(sg, r.choice(names))
           n += 1
+          while isinstance(f, list):
+            f = f[r.randrange(len(f))]
+          FT = f._dsl.Type
+          if issubclass(FT, Bits) and FT.nbits >= 3:
+            # slice, and slice of a slice, of a struct field (of a list-field element)
+            w = FT.nbits
+            lo = r.randrange(w - 2)
+            hi = r.randint(lo + 2, w)
+            sl = f[lo:hi]
+            a = r.randrange(hi - lo)
+            b = r.randint(a + 1, hi - lo)
+            inner = sl[a:b]
+            if inner is not f[lo + a:lo + b]:
+              raise SliceOfSliceError("%r[%d:%d] is %r, not %r" % (sl, a, b, inner, f[lo + a:lo + b]))
+            n += 2
     except Exception:
       raise
   return n
